@@ -33,6 +33,7 @@ def run(chk):
     quick = chk.tier == "quick"
     qk, mk = gpcases.qs_kernels(), gpcases.means(rng)
     exprs, expect, corr_bad, oracle_bad = [], [], [], []
+    kal_oracle = {}
     hist, distinct, maxdev = {}, set(), 0.0
     ci = 0
     for n in ([1, 2, 5, 9] if quick else [1, 2, 3, 5, 8, 13, 20]):
@@ -66,11 +67,20 @@ def run(chk):
                     gk = GaussianProcess(kern, X, noise=Nobj, mean=marg, solver=KalmanSolver)
                     pairs.append(("log_probability[kalman]", gd.log_probability(Y), gk.log_probability(Y)))
                     pairs.append(("normalization[kalman]", gd.solver.normalization(), gk.solver.normalization()))
-                    pairs.append(("whitened residual[kalman]", gq._get_alpha(Y), gk._get_alpha(Y)))
+                    # the Kalman solver whitens in its own sweep order (last datum first): only the norm of the whitened residual
+                    # (the quadratic form of the log probability) is solver independent
+                    pairs.append(("whitened residual norm[kalman]", jnp.sum(gq._get_alpha(Y) ** 2), jnp.sum(gk._get_alpha(Y) ** 2)))
                     P = np.asarray(kern.stationary_covariance())
-                    exprs.append(f"kalman_case {n} {P.shape[0]} {cmat(P)} {cten(np.asarray(gk.solver.A))} {cmat(np.asarray(gk.solver.H))} "
+                    Af, Hf = gpcases.kalman_tables(kern, X)
+                    exprs.append(f"kalman_case {n} {P.shape[0]} {cmat(P)} {cten(Af)} {cmat(Hf)} "
                                  f"{cvec(Ndiag)} {cvec(mfun(x))} {cvec(y)}")
                     expect.append((dict(info, solver="kalman"), float(gk.log_probability(Y)), np.asarray(gk.solver.s), True))
+                    # innovation variances = squared Cholesky diagonal of the dense solver's covariance taken in the sweep order
+                    Srev = np.asarray(gd.covariance)[::-1, ::-1]
+                    try:
+                        kal_oracle[(info["kernel"], info["noise"], n, tuple(info["y"]))] = np.diag(np.linalg.cholesky(Srev)) ** 2
+                    except np.linalg.LinAlgError:
+                        pass
                     exprs.append(f"quasisep_case {n} {gpcases.symm_coq(kern.to_symm_qsm(X))} {Ncoq} {cvec(mfun(x))} {cvec(y)}")
                     expect.append((dict(info, solver="quasisep"), float(gq.log_probability(Y)), np.asarray(gq.solver.factor.diag.d), False))
                 # the conditional process in every conditioning mode (C02's option matrix, compared solver against solver)
@@ -140,8 +150,37 @@ def run(chk):
                 ok, dv = close([got_], [wnt_], 1e-8)
                 if not ok:
                     oracle_bad.append(dict(infob, op=f"{op_} [{sname_}] on a structured-coordinate wrapper", expected=float(wnt_), observed=got_))
+    _MB, Latent = gpcases.structured_kernels()
+    for base_name, base in (("Matern32", qsm_.Matern32(jnp.asarray(1.4), jnp.asarray(0.8))), ("Matern52", qsm_.Matern52(jnp.asarray(1.1), jnp.asarray(1.3)))):
+        nl = 8
+        tl = np.sort(rng.uniform(0, 5, size=nl))
+        tl[4] = tl[3]                                    # value and derivative observed at the same time
+        lab = np.array([0, 1, 0, 0, 1, 1, 0, 1])
+        Xl = (jnp.asarray(tl), jnp.asarray(lab))
+        yl = rng.normal(size=nl)
+        dgl = rng.uniform(0.2, 0.5, size=nl)
+        klat = Latent(kernel=base, coeff_prim=jnp.asarray([1.0, 0.0]), coeff_deriv=jnp.asarray([0.0, 1.0]))
+        infol = dict(kernel=f"Latent({base_name}) [value / derivative observations]", n=nl, t=tl.tolist(), label=lab.tolist(), y=yl.tolist())
+        vals = {}
+        for sname_, scls_ in (("direct", DirectSolver), ("quasisep", QuasisepSolver), ("kalman", KalmanSolver)):
+            hist["latent/" + sname_] = hist.get("latent/" + sname_, 0) + 1
+            try:
+                gpl = GaussianProcess(klat, Xl, diag=jnp.asarray(dgl), solver=scls_)
+                vals[sname_] = dict(lp=float(gpl.log_probability(jnp.asarray(yl))), norm=float(gpl.solver.normalization()))
+                if sname_ != "kalman":
+                    vals[sname_]["cov"] = np.asarray(gpl.covariance)
+                    vals[sname_]["cmean"] = np.asarray(gpl.condition(jnp.asarray(yl)).gp.loc)
+            except Exception as e:  # noqa: BLE001
+                oracle_bad.append(dict(infol, op=f"log_probability [{sname_}]", observed=f"raised {type(e).__name__}: {str(e)[:80]}", expected="a value"))
+        for a_, b_ in (("direct", "quasisep"), ("direct", "kalman"), ("quasisep", "kalman")):
+            if a_ in vals and b_ in vals:
+                for key_ in ("lp", "norm", "cov", "cmean"):
+                    if key_ in vals[a_] and key_ in vals[b_]:
+                        ok, dv = close(np.atleast_1d(vals[b_][key_]), np.atleast_1d(vals[a_][key_]), 1e-8)
+                        if not ok:
+                            oracle_bad.append(dict(infol, op=f"solver agreement {b_} vs {a_}: {key_}", expected=np.atleast_1d(vals[a_][key_]).tolist(),
+                                                   observed=np.atleast_1d(vals[b_][key_]).tolist()))
     model = coq_eval("c03", IMPORTS, exprs, defs=DEFS, shard=10)
-    kal = {}
     for (info, lp, diag, is_k), mv in zip(expect, model):
         n = info["n"]
         quad, md = mv[0], mv[1:1 + n]
@@ -151,19 +190,19 @@ def run(chk):
         maxdev = max(maxdev, d1, d2)
         if not (ok1 and ok2):
             corr_bad.append(dict(info, model_logp=mlp, impl_logp=lp, dev=[d1, d2]))
-        # Kalman innovations variances are the squares of the Cholesky diagonal (kalman_is_cholesky, model level)
+        # the model's innovation variances are the squared Cholesky diagonal of the dense covariance in the solver's sweep order
+        # (C03_kalman_solver_is_quasisep + C03_kalman_det_exact)
         kkey = (info["kernel"], info["noise"], n, tuple(info["y"]))
-        if is_k:
-            kal[kkey] = np.asarray(md)
-        elif kkey in kal:
-            ok, dv = close(kal[kkey], np.asarray(md) ** 2, 1e-8)
+        if is_k and kkey in kal_oracle:
+            ok, dv = close(np.asarray(md), kal_oracle[kkey], 1e-8)
             if not ok:
-                corr_bad.append(dict(info, op="model: kalman s_k = c_k^2", dev=dv))
+                oracle_bad.append(dict(info, op="kalman s_k vs squared Cholesky diagonal of the reversed dense covariance", expected=kal_oracle[kkey].tolist(),
+                                       observed=np.asarray(md).tolist(), dev=dv))
     chk.cov["evaluations"] = len(exprs) + sum(hist.values())
     chk.cov["distinct_nontrivial"] = len(distinct)
     chk.cov["rule"] = ("6 quasiseparable kernel expressions x {scalar, per-point, banded} noise x 3 mean kinds x sizes from 1 with coincident points; "
                        "dense vs quasiseparable: log probability, normalization, covariance, variance, samples for a key and three shapes, "
-                       "triangular product / solve; Kalman vs both: log probability, normalization, whitened residual; automatic solver selection; a (time, band) wrapper with a coordinate-dependent observation model under all three solvers vs a dense oracle; "
+                       "triangular product / solve; Kalman vs both: log probability, normalization, norm of the whitened residual, innovation variances vs the Cholesky diagonal of the dense covariance in sweep order; a value/derivative-observation wrapper (observation vectors of different directions) under all three solvers; automatic solver selection; a (time, band) wrapper with a coordinate-dependent observation model under all three solvers vs a dense oracle; "
                        "the conditional process (log probability, mean, variance, covariance) in 8 conditioning modes incl. banded / diagonal predictive noise and another prediction kernel at the training inputs; distinct = different (kernel, noise, mean, n).")
     chk.cov["input_histogram"] = hist
     chk.cov["max_model_impl_deviation"] = maxdev
